@@ -14,12 +14,13 @@ def isSubOwner : Owner → Bool
 structure Live (c : Core) : Prop where
   sub : ∀ id uid ch um, alookup id c.mgr.requests = some (.sub uid ch um) →
     ∃ x, c.chans[ch]? = some x ∧ x.unsubWires = 0 ∧ x.unsubscribed = false ∧ x.closedByServer = false ∧
-      x.senderAlive = true ∧ isSubOwner x.owner = true ∧ x.uid = uid
+      x.senderAlive = true ∧ isSubOwner x.owner = true ∧ x.uid = uid ∧ x.acked = false ∧ x.rid = id
   inj : ∀ id id' uid uid' ch um um', alookup id c.mgr.requests = some (.sub uid ch um) →
     alookup id' c.mgr.requests = some (.sub uid' ch um') → id = id'
   handler : ∀ m ch, alookup m c.mgr.handlers = some ch →
     ∃ x, c.chans[ch]? = some x ∧ x.senderAlive = true ∧ x.owner = .method m
-  wires : ∀ x ∈ c.chans, x.unsubWires ≤ 1 ∧ (x.unsubWires = 1 → x.unsubscribed = true)
+  wires : ∀ x ∈ c.chans, x.unsubWires ≤ 1 ∧ (x.unsubWires = 1 → x.unsubscribed = true) ∧
+    (x.closedByServer = true → x.unsubscribed = false) ∧ (x.acked = true → x.unsubscribed = true)
 
 theorem live_init (cap : Nat) : Live { cap := cap } where
   sub := by intro id uid ch um h; simp [alookup] at h
@@ -35,6 +36,8 @@ structure LiveFrame (f : Chan → Chan) : Prop where
   sender : ∀ ch, (f ch).senderAlive = ch.senderAlive
   owner : ∀ ch, (f ch).owner = ch.owner
   uid : ∀ ch, (f ch).uid = ch.uid
+  acked : ∀ ch, (f ch).acked = ch.acked
+  rid : ∀ ch, (f ch).rid = ch.rid
 
 theorem liveFrame_afterSend (p : Text) : LiveFrame (fun x => x.afterSend p) := by
   constructor <;> intro ch <;> unfold Chan.afterSend <;> split <;> rfl
